@@ -186,6 +186,53 @@ Theorem C15_dbal_triples_too_few_thetas : forall draw n max_combos,
 Proof. exact dbal_triples_too_few. Qed.
 Print Assumptions C15_dbal_triples_too_few_thetas.
 
+(* ---- the use site READ ON THE TRANSLATED SOURCE (gap G15.1).  C15_dbal_triples above is about the hand-written twin
+   Binom.dbal_triples; the statements below are about src_kernel_triples (Generated/SrcDbal.v), the translation - regenerated
+   from /repo on every run - of the very run of statements `n_plates, n_thetas, ... = predictions.shape` ..
+   `idx3 = np.array(idx3)` of dbal_fast_gauss_scoring_vectorized: comb(n_thetas, 3, exact=True), the raise, min with the budget,
+   rng.choice, get_combination_at_sorted_index per index, zip into the three index arrays.  (nat_triples reads the three index
+   arrays as the list of their rows.) ---- *)
+From Batchie Require Import Model.Dbal Generated.SrcDbal Proofs.C05Source_KernelTriples Proofs.C15UseSite.
+
+(* scipy's comb(n, 3, exact=True), as that translation renders it, is the binomial coefficient of all the theorems above *)
+Theorem C15_comb3_is_binomial : forall n, 0 <= n -> comb3 n = Cz n 3.
+Proof. exact comb3_is_Cz. Qed.
+Print Assumptions C15_comb3_is_binomial.
+
+(* for n_thetas >= 3, any budget >= 1 and EVERY answer d of rng.choice obeying numpy's contract for that call: the translated
+   run returns, without error, three index arrays whose rows are min(C(n,3), budget) pairwise distinct triples a > b > c
+   inside range(n_thetas) - and ALL such triples whenever the budget covers C(n,3) *)
+Theorem C15_source_dbal_triples : forall (pred : arr3) (mc : Z) (d : list Z) (rest : list (list Z)) np T E,
+  shape3 pred = (np, T, E) -> (3 <= T)%nat -> 1 <= mc ->
+  choice_ok (comb3 (Z.of_nat T)) (Z.min (comb3 (Z.of_nat T)) mc) d = true ->
+  exists t3, src_kernel_triples pred mc (d :: rest) = Ok (t3, rest) /\
+    Z.of_nat (length (nat_triples t3)) = Z.min (Cz (Z.of_nat T) 3) mc /\
+    NoDup (nat_triples t3) /\
+    (forall a b c, In (a, b, c) (nat_triples t3) -> (c < b /\ b < a /\ a < T)%nat) /\
+    (Cz (Z.of_nat T) 3 <= mc -> forall a b c, (c < b /\ b < a /\ a < T)%nat -> In (a, b, c) (nat_triples t3)).
+Proof. exact src_kernel_triples_distinct_complete. Qed.
+Print Assumptions C15_source_dbal_triples.
+
+(* the hand-written twin of C15_dbal_triples and the translated run deliver the same triples for the same answer *)
+Theorem C15_dbal_triples_is_source : forall (pred : arr3) (mc : Z) (d : list Z) (rest : list (list Z)) np T E,
+  shape3 pred = (np, T, E) -> (3 <= T)%nat -> 1 <= mc ->
+  choice_ok (comb3 (Z.of_nat T)) (Z.min (comb3 (Z.of_nat T)) mc) d = true ->
+  exists zts t3,
+    dbal_triples (Z.of_nat T) mc (fun _ _ => d) = Ok (Cz (Z.of_nat T) 3, Z.min (Cz (Z.of_nat T) 3) mc, zts) /\
+    src_kernel_triples pred mc (d :: rest) = Ok (t3, rest) /\
+    nat_triples t3 = map (fun t => nat3 (tup3 t)) zts /\
+    (forall t, In t zts -> exists a b c, t = [a; b; c] /\ 0 <= c < b /\ b < a < Z.of_nat T).
+Proof. exact dbal_triples_is_source. Qed.
+Print Assumptions C15_dbal_triples_is_source.
+
+(* non-vacuity: 4 samples, budget 5000: the contract is satisfiable and the translated run yields all four triples *)
+Example C15_source_dbal_triples_example :
+  choice_ok (comb3 4) (Z.min (comb3 4) 5000) [3; 0; 1; 2] = true /\
+  option_map (fun r => nat_triples (fst r))
+    (match src_kernel_triples [[[]; []; []; []]] 5000 [[3; 0; 1; 2]] with Ok r => Some r | Err _ => None end)
+  = Some [(3, 2, 1); (2, 1, 0); (3, 1, 0); (3, 2, 0)]%nat.
+Proof. vm_compute. split; reflexivity. Qed.
+
 (* non-vacuity *)
 Example C15_unrank_example : unrank 7 5 2 = Ok [4; 1] /\ rank [4; 1] = 7 /\ Cz 5 2 = 10.
 Proof. vm_compute. repeat split. Qed.
